@@ -305,11 +305,26 @@ func emit(c *eng.Ctx, tid, s, p int, ops []crashlab.Op, sc scenario, mark int, d
 				readable[i] = true
 				hashok[i] = bytes.Equal(got, b)
 				meta[i] = metaClass(cas, d, b)
-				// metainfo is regenerated on demand
-				if err := g.Generate(d); err != nil {
-					regen[i] = "error"
-				} else {
-					regen[i] = metaClass(cas, d, b)
+				// metainfo is regenerated on demand: the origin's getMetaInfo answers a missing metainfo by refreshing the
+				// blob (blobrefresh -> WriteBlobToCacheWithMetaInfo on the already cached blob); metainfogen is the other producer
+				regen[i] = meta[i]
+				if meta[i] == "absent" {
+					err := cas.WriteBlobToCacheWithMetaInfo(d.Hex(), uint64(len(b)), func(w store.FileReadWriter) error {
+						_, e := io.Copy(w, bytes.NewReader(b))
+						return e
+					}, 4)
+					if err != nil {
+						regen[i] = "error"
+					} else {
+						regen[i] = metaClass(cas, d, b)
+					}
+				}
+				if regen[i] == "valid" {
+					if err := g.Generate(d); err != nil {
+						regen[i] = "generror"
+					} else {
+						regen[i] = metaClass(cas, d, b)
+					}
 				}
 			}
 		}
